@@ -157,7 +157,10 @@ PROPS.update({
         "the C01/C02 certificates the count is exactly 1 at an occurrence and 0 elsewhere, and the empty pattern is reported exactly once per host "
         "(c07_string_empty_pattern_once). The certificates are computed (unverified) and checked "
         "(verified) on the dump of every automaton built, under every heuristic. Matrices: each (pattern, anchor) found by "
-        "the independent scan must be reported exactly once under every heuristic (multiset equality); the model traversal is compared as exact sequences.",
+        "the independent scan must be reported exactly once under every heuristic (multiset equality); the model traversal is compared as multisets of matches. "
+        "Matrices, partial theorem c07_matrix_accepting_states_exclusive_partial: on an automaton that passes slab_ok and cert_unamb a pattern is accepted by at most "
+        "one abstractly reachable state at every anchor of every host; these two certificates are evaluated on every matrix dump as information "
+        "(coverage key informational_certificates_not_passed), not as a verdict: they are not complete for matrices.",
         "Coq proof of at-most-once from verified unambiguity certificates (trace of the BFS with distinct pruning keys + signed labelling) evaluated on "
         "the real automaton + multiset comparison with an independent occurrence oracle + differential correspondence", ["c07"]),
     "C09": aut_prop("translation_validation",
